@@ -1,0 +1,115 @@
+//go:build verif
+
+package ttlcache
+
+// Contracts for govc (contract-based deductive verification; see /verif/DESIGN.md, property C15).
+// This file holds only comments and is compiled only with -tags verif.
+//
+// Abstract view of a cache c: the ghost content of its map (libspec haxmap_clock.spec): c.m.has[k], c.m.hval[k]
+// (the value last Set for k) and c.m.hexp[k] (its expiry instant, nanoseconds). `now` is the instant the clock
+// reported during the call.
+
+//@ type Cache
+//@   invariant self.m != nil && self.clock != nil
+
+//@ func (*Cache).Get
+//@   tags C15 C07
+//@   ghost now int
+//@   requires c != nil && inv(c)
+//@   modifies nothing
+//@   at call Now#0 ghost now = unixNano(res0)
+//@   ensures [C15.get.hit] ok ==> (c.m.has[key] && v == c.m.hval[key] && now < c.m.hexp[key])
+//@   ensures [C15.get.miss] !ok ==> (!c.m.has[key] || now >= c.m.hexp[key])
+
+// Set: documented panic for ttl <= 0. The product ttl * time.Second must fit an int64 (ttl <= 9223372036 s,
+// about 292 years); beyond that the Duration wraps around (recorded precondition).
+//@ func (*Cache).Set
+//@   tags C15 C07
+//@   ghost now int
+//@   requires c != nil && inv(c)
+//@   requires ttl <= 9223372036
+//@   panics when ttl <= 0
+//@   modifies c.m.has, c.m.hval, c.m.hexp
+//@   at call Now#0 ghost now = unixNano(res0)
+//@   ensures [C15.set.entry] c.m.has[key] && c.m.hval[key] == val
+//@   ensures [C15.set.expiry] c.m.hexp[key] == now + ((c.maxTTL > 0 && ttl > c.maxTTL) ? c.maxTTL : ttl) * 1000000000
+//@   ensures [C15.set.others] forall k string :: k != key ==> (c.m.has[k] == old(c.m.has[k]) && c.m.hval[k] == old(c.m.hval[k]) && c.m.hexp[k] == old(c.m.hexp[k]))
+
+//@ func (*Cache).Delete
+//@   tags C15 C07
+//@   requires c != nil && inv(c)
+//@   modifies c.m.has
+//@   ensures [C15.delete.key] !c.m.has[key]
+//@   ensures [C15.delete.others] forall k string :: k != key ==> c.m.has[k] == old(c.m.has[k])
+
+// ---- Cleanup / Reset: enumerate with ForEach, then delete in bulk ----
+//
+// The closures handed to ForEach are verified on their own. ForEach itself ("calls its argument for the
+// entries of the map") cannot be expressed in a libspec: the call havocs everything, and what it leaves behind
+// is stated as explicit assumptions (right after it: the map and the cache are untouched; before the bulk Del, about
+// the collected keys = its argument: for Cleanup every one was a key of the map whose entry had expired, which
+// is what Cleanup$1 checks before it appends; for Reset every key of the map was collected). Cleanup and Reset therefore have no modifies clause (unchecked frame).
+
+// Cleanup$1(k, v): appends k to the captured keys iff v.exp is before the captured now.
+//@ func (*Cache).Cleanup$1
+//@   tags C15 C07
+//@   modifies keys, keys[len(keys):len(keys)+1]
+//@   ensures result
+//@   ensures [C15.cleanup.collect] unixNano(v.exp) < unixNano(now) ==> (len(keys) == old(len(keys)) + 1 && keys[len(keys) - 1] == k)
+//@   ensures [C15.cleanup.prefix] forall j :: 0 <= j && j < old(len(keys)) ==> keys[j] == old(keys[j])
+//@   ensures [C15.cleanup.skip] !(unixNano(v.exp) < unixNano(now)) ==> len(keys) == old(len(keys))
+
+//@ func (*Cache).Cleanup
+//@   tags C15 C07
+//@   ghost tnow int
+//@   requires c != nil && inv(c)
+//@   at call Now#0 ghost tnow = unixNano(res0)
+//@   at call ForEach#0 assume c.m == old(c.m) && c.clock == old(c.clock) && c.m.has == old(c.m.has) && c.m.hval == old(c.m.hval) && c.m.hexp == old(c.m.hexp)
+//@   at call ForEach#0 ghost tnow = unixNano(now)
+//@   at before call Del#0 assume forall j :: 0 <= j && j < len(arg1) ==> (c.m.has[arg1[j]] && c.m.hexp[arg1[j]] < tnow)
+//@   ensures inv(c)
+//@   ensures [C15.cleanup.onlyexpired] forall k string :: (old(c.m.has[k]) && !c.m.has[k]) ==> old(c.m.hexp[k]) < tnow
+//@   ensures [C15.cleanup.nonew] forall k string :: c.m.has[k] ==> old(c.m.has[k])
+//@   ensures [C15.cleanup.values] c.m.hval == old(c.m.hval) && c.m.hexp == old(c.m.hexp)
+
+// Reset$1(k, v): appends every k.
+//@ func (*Cache).Reset$1
+//@   tags C15 C07
+//@   modifies keys, keys[len(keys):len(keys)+1]
+//@   ensures result
+//@   ensures [C15.reset.collect] len(keys) == old(len(keys)) + 1 && keys[len(keys) - 1] == k
+//@   ensures [C15.reset.prefix] forall j :: 0 <= j && j < old(len(keys)) ==> keys[j] == old(keys[j])
+
+//@ func (*Cache).Reset
+//@   tags C15 C07
+//@   requires c != nil && inv(c)
+//@   at call ForEach#0 assume c.m == old(c.m) && c.clock == old(c.clock) && c.m.has == old(c.m.has) && c.m.hval == old(c.m.hval) && c.m.hexp == old(c.m.hexp)
+//@   at before call Del#0 assume forall k string :: c.m.has[k] ==> (exists j :: 0 <= j && j < len(arg1) && arg1[j] == k)
+//@   ensures inv(c)
+//@   ensures [C15.reset.empty] forall k string :: !c.m.has[k]
+
+// ---- life cycle ----
+
+//@ func (*Cache).startBackgroundCleanup
+//@   tags C15 C07
+//@   opt go=ignore
+//@   requires c != nil
+//@   modifies c.runningCh
+
+//@ func NewCache
+//@   tags C15 C07
+//@   modifies nothing
+//@   ensures fresh(result) && inv(result) && result.maxTTL == opts.MaxTTL
+//@   ensures [C15.new.empty] forall k string :: !result.m.has[k]
+//@   ensures [C15.new.clock] opts.clock != nil ==> result.clock == opts.clock
+
+// Stop closes stopCh exactly when this call is the one that flips `stopped`.
+//@ func (*Cache).Stop
+//@   tags C15 C07
+//@   ghost nclose int
+//@   requires c != nil
+//@   modifies c.stopped.v
+//@   at before call CompareAndSwap#0 ghost nclose = 0
+//@   at close#0 ghost nclose = nclose + 1
+//@   ensures [C15.stop.flag] c.stopped.v == 1 || (old(c.stopped.v) != 0 && c.stopped.v == old(c.stopped.v))
+//@   ensures [C15.stop.once] nclose == (old(c.stopped.v) == 0 ? 1 : 0)
